@@ -123,7 +123,7 @@ func TestVerifE5Replay(t *testing.T) {
 		vfE5ReplayDoubleDelete(t, name)
 	case "chan_double_delete_unlinks_fresh", "chan_double_delete_waits":
 		vfE5ReplayChanDoubleDelete(t, name)
-	case "empty_races_req_survives":
+	case "empty_races_req_survives", "empty_races_touch_survives", "empty_races_scan_survives":
 		vfE5ReplayEmptyReqSurvives(t, name)
 	case "exit_races_new_topic_publish":
 		vfE5ReplayExitNewTopic(t, name)
@@ -170,15 +170,29 @@ func vfE5ReplayF7(t *testing.T, name string) {
 	first := make(chan string, 1)
 	go func() { first <- vfE5Try(10*time.Second, func() { op(m.ID) }) }()
 	g.wait(t)
-	ch.Empty()
+	// a tree where REQ / TOUCH hold the channel's read lock (fixes/F27) makes Empty wait for the parked answer: the
+	// F7 schedule is then not executable for them - Empty runs once the answer has finished
+	empDone := make(chan string, 1)
+	go func() { empDone <- vfE5Try(20*time.Second, func() { ch.Empty() }) }()
+	waited := false
+	select {
+	case <-empDone:
+	case <-time.After(400 * time.Millisecond):
+		waited = true
+	}
 	var u *Message
-	if name == "f7_unrelated_removed" {
+	if name == "f7_unrelated_removed" && !waited {
 		// after the reset another message is delivered: it now occupies heap slot 0
 		u = NewMessage(vfE5ID(2), []byte("u"))
 		ch.StartInFlightTimeout(u, 2, time.Minute)
 	}
 	close(g.release)
 	r1 := <-first
+	if waited {
+		if e := <-empDone; e != "ok" {
+			r1 = "empty-" + e
+		}
+	}
 	// liveness of the channel afterwards: a FIN of an unknown id only needs inFlightMutex
 	r2 := vfE5Try(2*time.Second, func() { ch.FinishMessage(9, vfE5ID(99)) })
 	extra := ""
@@ -194,7 +208,7 @@ func vfE5ReplayF7(t *testing.T, name string) {
 		ch.inFlightMutex.Unlock()
 		extra = fmt.Sprintf(" u_in_map=%v heap_len=%d u_index=%d scan_dirty=%v u_stuck_in_flight=%v", inMap, heapLen, idx, dirty, still)
 	}
-	fmt.Printf("E5REPLAY %s op=%s later_fin=%s%s\n", name, r1, r2, extra)
+	fmt.Printf("E5REPLAY %s op=%s later_fin=%s empty_waited_for_answer=%v%s\n", name, r1, r2, waited, extra)
 }
 
 // go-diskqueue v1.1.0: when the writer rotates to a new file while the reader has consumed the
@@ -1567,8 +1581,20 @@ func vfE5ReplayEmptyReqSurvives(t *testing.T, name string) {
 	conn.Write([]byte("SUB ae c\n"))
 	conn.Write([]byte("RDY 1\n"))
 	f1, _ := vfE5Frames(conn, 500*time.Millisecond)
-	g := vfE5NewGate("chan.req.afterPop")
-	conn.Write([]byte("REQ " + string(m1.ID[:]) + " 0\n"))
+	var g *vfE5Gate
+	switch name {
+	case "empty_races_touch_survives":
+		g = vfE5NewGate("chan.touch.afterPop")
+		conn.Write([]byte("TOUCH " + string(m1.ID[:]) + "\n"))
+	case "empty_races_scan_survives":
+		// the in-flight timeout scan has taken the message off the heap and out of the map (one critical section
+		// since F16) and is about to put it back on the queue
+		g = vfE5NewGate("chan.scan.afterPQPop")
+		go ch.processInFlightQueue(time.Now().Add(time.Hour).UnixNano())
+	default:
+		g = vfE5NewGate("chan.req.afterPop")
+		conn.Write([]byte("REQ " + string(m1.ID[:]) + " 0\n"))
+	}
 	g.wait(t)
 	// a tree where REQ holds the channel's read lock makes Empty wait for the parked REQ; the others let it through
 	empDone := make(chan string, 1)
@@ -1596,7 +1622,7 @@ func vfE5ReplayEmptyReqSurvives(t *testing.T, name string) {
 	again := vfE5CountMsgs(f2)
 	reqErr := false
 	for _, f := range f2 {
-		if strings.HasPrefix(f, "e:E_REQ_FAILED") {
+		if strings.HasPrefix(f, "e:E_REQ_FAILED") || strings.HasPrefix(f, "e:E_TOUCH_FAILED") {
 			reqErr = true
 		}
 	}
